@@ -1246,7 +1246,15 @@ private:
     }
   }
 
-  void collectDueLocked(TimePoint now, std::vector<Handler> &out)
+  /// A collected firing waiting to be run outside the lock. periodicId != 0 marks a
+  /// firing of that periodic timer: it is re-checked right before it starts.
+  struct ReadyItem
+  {
+    Handler handler;
+    std::uint64_t periodicId{0};
+  };
+
+  void collectDueLocked(TimePoint now, std::vector<ReadyItem> &out)
   {
     while (!_heap.empty())
     {
@@ -1270,7 +1278,8 @@ private:
 
       if (!rec.canceled)
       {
-        out.push_back(std::move(rec.handler));
+        out.push_back(ReadyItem{std::move(rec.handler),
+                                _periodicTimers.count(firedId) != 0 ? firedId : 0});
 
         if (_config.enableStatistics)
         {
@@ -1307,6 +1316,36 @@ private:
       }
       // If periodicIt == end(): entry was erased by cancel() — no reschedule needed
     }
+  }
+
+  /// Run one collected firing. A batch is collected under the lock but run outside
+  /// it, one handler after the other, so a periodic timer can be cancelled between
+  /// the collection and the start of its firing (long after it when earlier
+  /// handlers of the batch are slow). cancel() has then reported success, so the
+  /// firing must not start: look the timer up again right before running it.
+  void runCollected(const ReadyItem &item)
+  {
+    if (item.periodicId != 0)
+    {
+      bool cancelled;
+      {
+        std::lock_guard<std::mutex> lock(_mutex);
+        auto it = _periodicTimers.find(item.periodicId);
+        cancelled = (it == _periodicTimers.end() || it->second.canceled);
+      }
+      if (cancelled)
+      {
+        // Not run: give back the executing count runLoop pre-announced for it
+        // (same protocol as safeRun's CountGuard, so drain() is woken).
+        if (_executingCallbacks.fetch_sub(1, std::memory_order_acq_rel) == 1)
+        {
+          { std::lock_guard<std::mutex> g(_mutex); }
+          _drainCV.notify_all();
+        }
+        return;
+      }
+    }
+    safeRun(item.handler);
   }
 
   void safeRun(const Handler &h)
@@ -1387,7 +1426,7 @@ private:
     for (;;)
     {
       std::optional<TimePoint> nextDue;
-      std::vector<Handler> ready;
+      std::vector<ReadyItem> ready;
       bool shouldExit = false;
       int timerfdErr = 0;
 
@@ -1422,9 +1461,9 @@ private:
 
       // Fire callbacks OUTSIDE the lock — always runs before any break
       // so CountGuard can decrement _executingCallbacks correctly
-      for (auto &h : ready)
+      for (auto &item : ready)
       {
-        safeRun(h);
+        runCollected(item);
       }
 
       // Handle programTimerfd error outside the lock, after callbacks
@@ -1517,9 +1556,9 @@ private:
         }
       }
 
-      for (auto &h : ready)
+      for (auto &item : ready)
       {
-        safeRun(h);
+        runCollected(item);
       }
     }
 
